@@ -39,4 +39,14 @@ vpv_cell!(#[kani::unwind(6)] c43_position_to_line_col, "C43/diagnostics::positio
 vpv_native!(c43_error_end_column, "C43/diagnostics::get_error_end_column/no-panic and end > start (native enumeration: 7382 documents x 6 lines x 7 character columns)", {
     enum_doc_line_col(|d, line, ch| get_error_end_column(d, line as usize, ch as usize) > ch as usize)
 });
-vpv_replay_table!(c43_position_to_line_col, c43_error_end_column);
+
+// the same helper over the larger native document set and EVERY byte offset 0..=len+1 (also offsets inside a multi-byte character)
+vpv_native!(c43_position_to_line_col_native, "C43/diagnostics::position_to_line_col/no-panic, line <= #newlines, col <= #characters for every byte offset, also inside a multi-byte character (native enumeration: 7382 documents x offsets 0..=len+1)", {
+    let mut ok = true; let mut shown = 0;
+    for d in docs() { for off in 0..=d.len() + 1 {
+        let good = vpv_enum_try(|| format!("document={:?} byte offset={}", d, off), || { let (line, col) = position_to_line_col(&d, off); line <= d.matches('\n').count() && col <= d.chars().count() });
+        if !good { ok = false; shown += 1; if shown >= 3 { return false; } }
+    } }
+    ok
+});
+vpv_replay_table!(c43_position_to_line_col, c43_error_end_column, c43_position_to_line_col_native);
